@@ -23,7 +23,7 @@ THRESHOLDS = [0, 5, 10, 25, 50, 75, 90, 100]
 def gen_cases(tier, seed):
     rnd = random.Random(300 + seed)
     isos = workload.all_isos()
-    hostile = workload.rotate([i for i in workload.HOSTILE if i in isos], seed * 3)
+    hostile = workload.rotate([i for i in workload.HOSTILE if i in isos] + [i for i in workload.zero_rows(seed, 6) if i not in workload.HOSTILE], seed * 3)
     cases = []
     k = 0
     combos = [(s, r, c) for s in workload.FAMILIES_COMMON["shutoff"] for r in workload.FAMILIES_COMMON["ratio_stocks_untouched"]
@@ -56,6 +56,14 @@ def gen_cases(tier, seed):
             for N in ((48,) if tier == "quick" else (48, 120)):
                 o = workload.base_country(shutoff="continued", cull="dont_eat_culled", ratio_stocks_untouched="baseline", NMONTHS=N, meat_strategy=ms)
                 cases.append(workload.pipeline_case(iso, o, "exporter_continued/%s/%d" % (ms, N)))
+    # no stocks at the start: the first month has nothing but its own harvest, so it is alone the worst month of many countries while
+    # later months have surplus - the situation in which only the month-to-month ordering of feed keeps food away from animals.
+    # Every country of the table, present-day climate and continued demand; the thorough tier adds the other climate and shut-offs.
+    for iso in isos:
+        variants = [("continued", 1)] if tier == "quick" else [("continued", 1), ("continued", 0), ("long_delayed_shutoff", 1), ("continued_after_10_percent_fed", 1)]
+        for sh, ci in variants:
+            o = workload.base_country(shutoff=sh, stored_food="zero", ratio_stocks_untouched=rnd.choice(["zero", "baseline"]), NMONTHS=rnd.choice([120, 72, 48]), **climates[ci])
+            cases.append(workload.pipeline_case(iso, o, "no_initial_stocks/%s/%s" % (sh, "nw" if ci == 0 else "base")))
     for T in THRESHOLDS:
         for j in range(4 if tier == "quick" else 24):
             o = workload.base_country(shutoff=rnd.choice(["continued", "long_delayed_shutoff", "continued_after_10_percent_fed", "short_delayed_shutoff"]),
@@ -129,9 +137,22 @@ def monitor(tr, case):
             # more than the worst month (round 2 pins people at the worst-month level in every month and hands the rest to animals,
             # less 20 kcal/person/day); (b) feed actually costs people food (final result below the no-feed round)
             harmless = p1 is not None and p3 >= p1 - 0.1
+            fedm = [int(x) for x in np.where(nh > 0.1)[0]]
+            try:
+                ir = tr.result
+                s3 = sum(np.asarray(getattr(ir, n).kcals, float) for n in ("stored_food", "outdoor_crops", "seaweed", "cell_sugar", "scp", "greenhouse", "fish", "meat", "milk"))
+                worst = [int(x) for x in np.where(s3 <= s3.min() + 0.05)[0]]
+            except Exception:
+                worst = []
+            big = float(nh.max())
+            diag = {"storage": "no_storage_between_years" if not bool(c["STORE_FOOD_BETWEEN_YEARS"]) else "storage_between_years",
+                    "size": "residual_below_half_a_percent_of_needs" if big <= 0.5 else "substantial",
+                    "months_with_feed": fedm[:6] + fedm[-2:], "n_months_with_feed": len(fedm), "worst_months": worst[:6], "n_worst": len(worst),
+                    "feed_only_before_first_worst_month": bool(worst and fedm and max(fedm) < worst[0]),
+                    "nonincreasing": bool(np.all(np.diff(nh) <= 1e-6 * max(1.0, nh.max())))}
             bad(("feed_from_surplus_months_while_below_threshold" if harmless else "feed_or_biofuel_while_below_threshold"),
                 "final result feeds %.3f%% < threshold %.3g%% yet month %d gives %.3f%%-equivalent to feed+biofuel" % (p3, T, m, nh[m]),
-                month=m, p3=p3, p1=p1, T=T, amount_pct=float(nh.max()), store_between_years=bool(c["STORE_FOOD_BETWEEN_YEARS"]))
+                month=m, p3=p3, p1=p1, T=T, amount_pct=float(nh.max()), store_between_years=bool(c["STORE_FOOD_BETWEEN_YEARS"]), **diag)
         if p1 is not None and p3 < p1 - 0.1:
             bad("final_result_below_no_feed_round", "final %.4f%% < no-feed round %.4f%% while below the threshold %.3g%%" % (p3, p1, T), p1=p1, p3=p3, T=T)
     else:
